@@ -150,6 +150,39 @@ def run(ck):
     if pairs:
         big = max(pairs, key=lambda q: len(q["unopt"]) - len(q["opt"]))
         ck.add_sample({"src": byid[big["id"]]["src"], "fn_const": big["fn"], "unopt_len": len(big["unopt"]), "opt_len": len(big["opt"])})
+    # ---- independent scripts compiled at the same time by several goroutines compile to what they compile to alone
+    csrc = [p["src"] for p in semlib.generate(ck, "dce", 24 if quick else 200)]
+    groups = [csrc[i:i + 12] for i in range(0, len(csrc), 12)]
+    cres = vlib.run_cases(ck, "conccompile", [{"id": i + 1, "srcs": g, "rounds": 40 if quick else 300} for i, g in enumerate(groups)], nproc=2, timeout=3000)
+    for i, g in enumerate(groups):
+        o = cres[i + 1]
+        ck.evaluations += 1
+        if o.get("hang") or o.get("died") or o.get("panic") or o.get("problems"):
+            ck.violation("concurrent-compile", "scripts compiled concurrently do not compile as they do alone: %s" % str(o.get("problems") or o)[:400], {"srcs": g, "real": o})
+        else:
+            ck.traces += 1
+    # ---- functions whose last instruction carries every small operand value (an optimizer that looks at raw bytes instead of decoded
+    # instructions mistakes operands for opcodes): the last statement assigns through a selector to local / global number k
+    tailprogs = []
+    for k in list(range(0, 48)):
+        decl = "".join("  v%d := {f: %d}\n" % (i, i) for i in range(k + 1))
+        tailprogs.append({"src": "f := func() {\n" + decl + "  v%d.f = 7\n}\nr := f()\n" % k, "want_r": {"k": "undef"}, "tag": "last-stmt-selector-local/%d" % k})
+        tailprogs.append({"src": "f := func(c) {\n" + decl + "  if c { return 1 }\n  v%d\n}\nr := [f(false), f(true)]\n" % k, "want_r": None, "tag": "last-stmt-expr-local/%d" % k})
+        gdecl = "".join("g%d := {f: %d}\n" % (i, i) for i in range(k + 1))
+        tailprogs.append({"src": gdecl + "f := func() {\n  g%d.f = 7\n}\nr := f()\n" % k, "want_r": {"k": "undef"}, "tag": "last-stmt-selector-global/%d" % k})
+    for i, t in enumerate(tailprogs):
+        t.update({"id": i + 1, "inputs": [], "mods": []})
+    ta = semlib.real_outcomes(ck, tailprogs, nproc=8)
+    tb = semlib.real_outcomes(ck, tailprogs, nproc=8, extra={"nodce": True})
+    for t in tailprogs:
+        a, b = ta[t["id"]], tb[t["id"]]
+        ck.evaluations += 1
+        ga = dict((n, v) for n, v in a.get("g", []))
+        if a.get("k") != "ok" or b.get("k") != "ok" or json.dumps(a.get("g"), sort_keys=True) != json.dumps(b.get("g"), sort_keys=True) or (t["want_r"] is not None and ga.get("r") != t["want_r"]):
+            ck.violation("tail-of-function:" + t["tag"].split("/")[0], "function ending in an instruction with operand %s: optimized run %s, unoptimized run %s\n%s" % (
+                t["tag"].split("/")[1], str(a.get("msg") or ga.get("r"))[:200], str(b.get("msg") or dict((n, v) for n, v in b.get("g", [])).get("r"))[:200], t["src"][-300:]), {"program": t, "opt": a, "unopt": b})
+        else:
+            ck.traces += 1
     # functions beyond 64 KiB (jump operands above 16 bits, also after dead code was removed in front of them): optimized vs
     # not optimized vs closed form
     largelib.judge(ck, quick)
